@@ -1,8 +1,8 @@
 (* Property C15 — compiled numeric primitives compute exactly what Python computes.
    Only theorem statements closed by `exact`, each followed by Print Assumptions.
    All theorems quantify over ALL integers (Z): every short/long boundary is covered. *)
-From Coq Require Import ZArith Bool List.
-From C15 Require Import Model Statement Proofs Proofs2 Proofs3 ProofsFixed ProofsErr.
+From Coq Require Import ZArith Bool List SpecFloat.
+From C15 Require Import Model Statement Proofs Proofs2 Proofs3 ProofsFixed ProofsErr FloatModel FloatProofs.
 From Gen Require Import C15ErrKinds.
 Open Scope Z_scope.
 
@@ -201,7 +201,71 @@ Theorem declared_error_kinds_sound :
 Proof. exact (conj err_table_sound src_magic_matches). Qed.
 Print Assumptions declared_error_kinds_sound.
 
+(* ------------------------------------------------------------------ floats (binary64 = SpecFloat prec 53 emax 1024) *)
+(* float // float and float / float: the C code is CPython's algorithm, ZeroDivisionError iff the divisor is +-0 *)
+Theorem float_floordiv_correct : forall x y, c_floordiv x y = py_float_floor_div x y.
+Proof. exact floordiv_same. Qed.
+Print Assumptions float_floordiv_correct.
+
+Theorem float_truediv_correct : forall x y, c_float_truediv x y = py_float_truediv x y.
+Proof. exact float_truediv_same. Qed.
+Print Assumptions float_truediv_correct.
+
+(* float % float: mypyc's lowering (fmod, sign test on the OPERANDS, copysign for a zero remainder) = float_rem
+   (sign test on the REMAINDER), for all operands incl. zeros, infinities and NaN *)
+Theorem float_mod_lowering_correct : forall x y, c_float_mod x y = py_float_rem x y.
+Proof. exact float_mod_correct. Qed.
+Print Assumptions float_mod_lowering_correct.
+
+(* int -> float: exact C cast for short ints, PyLong_AsDouble for boxed ones; OverflowError iff |a| >= 2^1024 - 2^970 *)
+Theorem int_to_float_correct : forall a, c_from_tagged (tag a) = py_float_of_int a.
+Proof. exact from_tagged_correct. Qed.
+Print Assumptions int_to_float_correct.
+
+Theorem native_to_float_correct : forall t x, in_range t x = true -> c_fw_to_float x = py_float_of_int x.
+Proof. exact fw_to_float_correct. Qed.
+Print Assumptions native_to_float_correct.
+
+(* float -> int: truncation, ValueError for NaN, OverflowError for infinities, canonical tagging of the result *)
+Theorem float_to_int_correct : forall f,
+  valid_binary fprec femax f = true -> c_from_float f = rmap tag (py_int_of_float f).
+Proof. exact from_float_correct. Qed.
+Print Assumptions float_to_int_correct.
+
+Theorem float_to_native_correct : forall t f,
+  valid_binary fprec femax f = true -> c_float_to_fw t f = py_float_to_fw t f.
+Proof. exact float_to_fw_correct. Qed.
+Print Assumptions float_to_native_correct.
+
+(* int / int: equal to CPython when both operands are below 2^53 (CPython's own fast path) or one is boxed ... *)
+Theorem int_truediv_correct_below_2p53 : forall a b,
+  Z.abs a < B53 -> Z.abs b < B53 -> c_truediv (tag a) (tag b) = py_truediv a b.
+Proof. exact truediv_small_correct. Qed.
+Print Assumptions int_truediv_correct_below_2p53.
+
+Theorem int_truediv_correct_boxed : forall a b,
+  fits63 a = false \/ fits63 b = false -> b <> 0 -> c_truediv (tag a) (tag b) = py_truediv a b.
+Proof. exact truediv_boxed_correct. Qed.
+Print Assumptions int_truediv_correct_boxed.
+
+(* ... and REFUTED for short operands above 2^53 (known finding int-truediv:double-rounding-above-2^53) *)
+Theorem int_truediv_refuted :
+  exists a b, fits63 a = true /\ fits63 b = true /\ b <> 0 /\ c_truediv (tag a) (tag b) <> py_truediv a b.
+Proof. exact truediv_refuted. Qed.
+Print Assumptions int_truediv_refuted.
+
+(* int == float: REFUTED (known finding int-float-comparison:int-operand-converted-to-double) *)
+Theorem int_float_comparison_refuted :
+  (exists a f, c_int_float_cmp CEq (tag a) f = BVal true /\ py_int_float_cmp CEq a f = false) /\
+  (exists a f e, c_int_float_cmp CEq (tag a) f = BErr e /\ py_int_float_cmp CEq a f = false).
+Proof. exact int_float_cmp_refuted. Qed.
+Print Assumptions int_float_comparison_refuted.
+
 (* hypotheses are satisfiable / boundary witnesses *)
+Example ex_float_valid : valid_binary fprec femax f_2p62 = true /\ c_from_float f_2p62 = Ok (Long B62).
+Proof. vm_compute. split; reflexivity. Qed.
+Example ex_float_mod : c_float_mod (fopp (of_Z 15)) (of_Z 4) = FVal (of_Z 1) /\ c_float_mod (of_Z 1) fzero = FErr ZeroDivisionError.
+Proof. vm_compute. split; reflexivity. Qed.
 Example ex_add_boundary : tagged_add (tag (B62 - 1)) (tag 1) = Long B62.
 Proof. vm_compute. reflexivity. Qed.
 Example ex_floordiv_boundary : tagged_floordiv (tag (- B62)) (tag (-1)) = Ok (Long B62).
